@@ -71,4 +71,79 @@ class C01a(Obligation):
                       'the query receives the normalised position')
 
 
-OBLIGATIONS = [C01a]
+import jedi  # noqa: E402
+from jedi.api import completion as jcompletion  # noqa: E402
+
+BROKEN = [
+    'foo(1, "abc', 
+    'x = [1, (2,\n  y.',
+    'def f(a, b=\n  return a.\n',
+    'class C(:\n  x = {1: \'q\n',
+    'print(f"{a!r:>{w}} {",\n',
+    'a = b if c else\nimport os.\nfrom . import (x,\n',
+    'lambda x=(1,: x ** **\n)]}\n@dec(1,\ndef',
+    'r\'\'\'text\n more (text\n',
+    'f(a)(b=1, *c, **\n',
+    'x.y(1)[2].z(k=\n\t3, \n',
+]
+
+FUNCTIONS = ('completion_name', 'signature_details', 'string_prefix', 'context')
+
+
+class C01b(Obligation):
+    id = 'C01.b'
+    title = 'the position-driven API layer is total: no internal exception for any in-range cursor on broken code'
+    pattern = 'P4 concrete (broken) tree x symbolic cursor'
+    interpret_modules = ('jedi', 'parso', 'obligations')
+    loop_bound = 400
+    max_paths = 6000
+    assumptions = (
+        'a corpus of broken / half-typed snippets is parsed natively by parso (error recovery trusted); (line, column) '
+        'are symbolic integers constrained to the text (the position contract is C01.a); the interpreter forks on every '
+        'comparison of helpers.get_on_completion_name / get_signature_details (+ CallDetails accessors) / '
+        'completion._extract_string_while_in_string / Script.get_context and parso.get_leaf_for_position; '
+        'slicing the concrete text at the symbolic column forks over the columns, so regexes run natively',
+    )
+
+    def configs(self, tier):
+        n = 5 if tier == 'quick' else len(BROKEN)
+        return [dict(snippet=i, fn=f) for i in range(n) for f in FUNCTIONS]
+
+    def scenario(self, ctx, cfg):
+        src = BROKEN[cfg['snippet']]
+        script = jedi.Script(src)
+        module, lines = script._module_node, script._code_lines
+        K = len(lines)
+        line = ctx.int('line', 1, K)
+        column = ctx.int('column', 0)
+        text = lines[line - 1]
+        visible = len(text.rstrip('\r\n')) if text.endswith('\n') else len(text)
+        ctx.assume(column <= visible)
+        pos = (line, column)
+        fn = cfg['fn']
+        if fn == 'completion_name':
+            out = ctx.call(helpers.get_on_completion_name, module, lines, pos)
+            ctx.check(out.exc is None, 'get_on_completion_name never raises')
+            if out.exc is None:
+                before = text[:column]
+                ctx.check(before.endswith(out.value), 'the fragment is the text directly in front of the cursor')
+        elif fn == 'signature_details':
+            out = ctx.call(helpers.get_signature_details, module, pos)
+            ctx.check(out.exc is None, 'get_signature_details never raises')
+            if out.exc is None and out.value is not None:
+                d = out.value
+                ctx.check(d.bracket_leaf == '(' and d.bracket_leaf.start_pos < pos, 'the bracket is a "(" before the cursor')
+                acc = ctx.call(lambda: (d.index, d.keyword_name_str, d.count_positional_arguments(),
+                                        list(d.iter_used_keyword_arguments()), d.calculate_index([])))
+                ctx.check(acc.exc is None, 'the accessors of the call details never raise')
+        elif fn == 'string_prefix':
+            leaf = ctx.run(module.get_leaf_for_position, pos, include_prefixes=True)
+            out = ctx.call(jcompletion._extract_string_while_in_string, leaf, pos)
+            ctx.check(out.exc is None, '_extract_string_while_in_string never raises')
+        else:
+            ctx.force(jedi.Script.get_context, jedi.Script.get_context.__wrapped__)
+            out = ctx.call(script.get_context, line, column)
+            ctx.check(out.exc is None, 'get_context never raises inside the text')
+
+
+OBLIGATIONS = [C01a, C01b]
